@@ -138,6 +138,28 @@ def _(p):
     return None
 
 
+@replay("c10_dupnames")
+def _(p):
+    from formulaic import model_matrix
+
+    df = _c10_frame()
+    df["a:b"] = [float(3 * i % 5) + 0.25 for i in range(len(df))]
+    mm = model_matrix(p["formula"], df, output=p["output"])
+    names = list(mm.model_spec.column_names)
+    arr = numpy.asarray(mm.todense() if p["output"] == "sparse" else mm, dtype=float)
+    if arr.ndim != 2 or arr.shape[1] != len(names):
+        return f"columns-lost: {p['formula']!r} ({p['output']}): {len(names)} recorded column names {names}, matrix shape {arr.shape}"
+    if p["output"] == "pandas" and list(mm.columns) != names:
+        return f"labels-differ: {list(mm.columns)} vs {names}"
+    ref = numpy.asarray(model_matrix(p["formula"], df, output="numpy"), dtype=float)
+    if not numpy.allclose(arr, ref):
+        return f"cells-differ: {p['formula']!r} ({p['output']}) differs from the numpy output"
+    total = sum(len(v) for v in mm.model_spec.term_indices.values())
+    if total != len(names):
+        return f"term-ranges: term_indices cover {total} of {len(names)} columns"
+    return None
+
+
 @replay("c10_subset_meta")
 def _(p):
     from formulaic import model_matrix
